@@ -3,9 +3,11 @@
 META = {
     'C16': {
         'level': 'proof',
-        'text': 'Contracts (pre/post, yield monitors with ghost coverage counter, loop invariants) on the real chunking functions, '
-                'VCs generated from /repo source on every run and discharged by z3 for all lengths / chunk sizes / overlaps / file lists. '
-                'Reader construction on real files and the mtscomp-backed iterator on real .cbin files are bounded stand-ins.',
+        'text': 'PROVED for all lengths / chunk sizes / overlaps / file lists (pre/post, yield monitors with a ghost coverage counter, loop invariants): chunk_bounds (kept parts tile the data exactly once, '
+                'inside their chunk, no chunk above the size), _get_chunk_bounds (strictly increasing from 0 to the total, contains every file boundary, gaps at most the chunk length), both iter_chunks '
+                '(non-empty intervals tile the recording in order), _excerpt_step and excerpts (in bounds, disjoint, increasing, at most n of at most the size), data_chunk (2- and 4-tuples, with/without overlap), '
+                'get_excerpts on its non-iterating branches (the whole data when shorter than requested, none, one). BOUNDED only: get_excerpts with two or more excerpts (concatenation of the yielded chunks), '
+                'reader construction on real files and the mtscomp-backed iterator on real .cbin files.',
         'note': 'Assumed: Python subset semantics (A-PY), mtscomp.Reader field contract (batch_size>=1, n_batches=ceil(n_chunks/batch_size), chunk_bounds strictly increasing), '
                 'np.concatenate/slicing in get_excerpts (bounded only).',
         'technique': 'contract-based deductive verification (home-built VC generator over the real source, z3/cvc5) + bounded contract evaluation on the real code as labelled stand-in',
